@@ -228,3 +228,254 @@ Proof.
   - apply Forall_forall. intros r Hin. rewrite Hrows'. intros Hx. apply elem_of_difference in Hx as [_ Hx]. apply Hx. apply in_l2s. exact Hin.
   - apply Forall_forall. intros cv Hcv. apply col_values_in in Hcv as (colx & _ & Hx & _). unfold known. rewrite Hlook, Hx. eexists. reflexivity.
 Qed.
+(* ---------------------------------------------------------------------------------------------------------- *)
+(* schema actions *)
+Lemma rows_list_in tb r : r ∈ rows_list tb <-> r ∈ t_rows tb.
+Proof. unfold rows_list. rewrite merge_sort_Permutation. apply elem_of_elements. Qed.
+
+Lemma undo_add_column ord d t c ci tb sc :
+  wf d -> d_tables d !! t = Some tb -> d_schema d !! t = Some sc -> t_cols tb !! c = None ->
+  let d' := mk_doc (<[t := <[c := ci]> sc]> (d_schema d))
+                   (<[t := Table (t_rows tb) (<[c := new_col ci]> (t_cols tb))]> (d_tables d)) in
+  wf d' /\ apply_doc ord d' (RemoveColumn t c) = Some d.
+Proof.
+  intros Hw Ht Hs Hc d'. assert (Hwt : wf_table sc tb) by (eapply wf_lookup; eauto).
+  assert (Hw' : wf d') by (apply wf_tset; [exact Hw|apply wf_table_insert; [exact Hwt|reflexivity|apply wf_col_new]]).
+  split; [exact Hw'|]. rewrite apply_doc_unfold. simpl normalize.
+  edestruct (exec_remove_column_ok ord d' t c) with (u := @nil action) (p := @nil delta) as (st' & Hex & Hdoc);
+    [exact Hw'|unfold d'; simpl; apply lookup_insert|unfold d'; simpl; apply lookup_insert|simpl; apply lookup_insert|].
+  rewrite Hex. simpl. f_equal. rewrite Hdoc. unfold d', mk_doc. simpl. rewrite !insert_insert.
+  rewrite (delete_insert _ _ _ (wf_table_col_none _ _ _ Hwt Hc)), (delete_insert _ _ _ Hc).
+  rewrite (insert_id _ _ _ Hs). rewrite table_eta, (insert_id _ _ _ Ht). apply doc_eta.
+Qed.
+
+(* a column whose rows all read the default is an empty column *)
+Lemma col_all_default tb col :
+  wf_col (t_rows tb) col -> nondefault_rows tb col = [] -> col = new_col (c_info col).
+Proof.
+  intros Hwc Hnd. apply (col_ext (t_rows tb) (t_rows tb)); [exact Hwc|apply wf_col_new|reflexivity|].
+  intros r. change (cget (new_col (c_info col)) r) with (cdefault col).
+  destruct (decide (r ∈ t_rows tb)) as [Hin|Hnin]; [|apply (cget_default_notin _ _ _ Hwc Hnin)].
+  destruct (decide (cget col r = cdefault col)) as [|Hne]; [assumption|]. exfalso.
+  assert (r ∈ nondefault_rows tb col) by (apply elem_of_list_filter; split; [exact Hne|apply rows_list_in; exact Hin]).
+  rewrite Hnd in H. inversion H.
+Qed.
+
+Local Opaque col_writes.
+
+Lemma undo_remove_column_data ord d t c tb sc col :
+  wf d -> d_tables d !! t = Some tb -> d_schema d !! t = Some sc -> t_cols tb !! c = Some col ->
+  let d' := mk_doc (<[t := delete c sc]> (d_schema d))
+                   (<[t := Table (t_rows tb) (delete c (t_cols tb))]> (d_tables d)) in
+  let nd := nondefault_rows tb col in
+  wf d' /\
+  (nd = [] -> apply_doc ord d' (AddColumn t c (c_info col)) = Some d) /\
+  (nd ≠ [] -> exists d'', apply_doc ord d' (AddColumn t c (c_info col)) = Some d'' /\
+                          apply_doc ord d'' (BulkUpdateRecord t nd [(c, map (cget col) nd)]) = Some d).
+Proof.
+  intros Hw Ht Hs Hc d' nd. assert (Hwt : wf_table sc tb) by (eapply wf_lookup; eauto).
+  destruct (wf_table_col _ _ _ _ Hwt Hc) as [Hsc Hwc].
+  assert (Hw' : wf d') by (apply wf_tset; [exact Hw|apply wf_table_delete; exact Hwt]).
+  set (d'' := mk_doc (<[t := <[c := c_info col]> sc]> (d_schema d))
+                     (<[t := Table (t_rows tb) (<[c := new_col (c_info col)]> (t_cols tb))]> (d_tables d))).
+  assert (Hadd : apply_doc ord d' (AddColumn t c (c_info col)) = Some d'').
+  { rewrite apply_doc_unfold. simpl normalize.
+    rewrite (exec_add_column_ok ord d' t c (c_info col) (Table (t_rows tb) (delete c (t_cols tb))) (delete c sc) [] [] Hw');
+      [|unfold d'; simpl; apply lookup_insert|unfold d'; simpl; apply lookup_insert|simpl; apply lookup_delete].
+    simpl. f_equal. unfold d', d'', mk_doc. simpl. rewrite !insert_insert, !insert_delete_insert. reflexivity. }
+  split; [exact Hw'|]. split.
+  - intros Hnd. rewrite Hadd. f_equal. unfold d''. rewrite <- (col_all_default tb col Hwc Hnd).
+    rewrite (insert_id _ _ _ Hsc), (insert_id _ _ _ Hs), (insert_id _ _ _ Hc), table_eta, (insert_id _ _ _ Ht). apply doc_eta.
+  - intros Hnd. exists d''. split; [exact Hadd|].
+    assert (Hs'' : d_schema d'' = d_schema d) by (unfold d''; simpl; rewrite (insert_id _ _ _ Hsc), (insert_id _ _ _ Hs); reflexivity).
+    set (tb'' := Table (t_rows tb) (<[c := new_col (c_info col)]> (t_cols tb))).
+    assert (Hin_nd : forall r, r ∈ nd -> r ∈ t_rows tb) by (intros r Hr; apply elem_of_list_filter in Hr as [_ Hr]; apply rows_list_in; exact Hr).
+    rewrite apply_doc_unfold. simpl normalize.
+    rewrite (exec_update_ok ord d'' t tb''); [|unfold d''; simpl; apply lookup_insert|apply Forall_forall; exact Hin_nd|].
+    2: { constructor; [|constructor]. unfold known. simpl. rewrite lookup_insert. eexists. reflexivity. }
+    simpl. f_equal. unfold tset. rewrite Hs''. unfold d''. simpl. rewrite insert_insert.
+    change (upd_col c (fun col0 => cset_list col0 (zip nd (map (cget col) nd))) tb'')
+      with (write_cols nd [(c, map (cget col) nd)] tb'').
+    rewrite <- (doc_eta d) at 3. f_equal. etransitivity; [|apply (insert_id _ _ _ Ht)]. f_equal.
+    apply (table_restore sc tb _ (t_rows tb) Hwt).
+    + rewrite write_cols_rows. reflexivity.
+    + rewrite write_cols_dom. unfold tb''. simpl. rewrite dom_insert_L. apply set_eq. intros x. rewrite elem_of_union, elem_of_singleton.
+      split; [intros [->|?]; [apply elem_of_dom; eauto|assumption]|auto].
+    + intros c0 col0 col2 Hc0 H2. rewrite write_cols_lookup in H2. unfold tb'' in H2. simpl in H2.
+      destruct (decide (c0 = c)) as [->|Hne].
+      * rewrite lookup_insert in H2. simpl in H2. injection H2 as <-. assert (col0 = col) by congruence. subst col0.
+        split; [rewrite col_writes_info; reflexivity|]. split; [apply col_writes_wf; [apply wf_col_new|exact Hin_nd]|].
+        intros r. destruct (decide (r ∈ nd)) as [Hin|Hnin].
+        -- apply (col_writes_restores c nd (cget col)); [left| |exact Hin]. intros cv Hcv _. apply elem_of_list_singleton in Hcv. subst cv. reflexivity.
+        -- rewrite col_writes_other by exact Hnin. change (cget (new_col (c_info col)) r) with (cdefault col).
+           destruct (decide (r ∈ t_rows tb)) as [Hr|Hr]; [|symmetry; apply (cget_default_notin _ _ _ Hwc Hr)].
+           destruct (decide (cget col r = cdefault col)) as [E|E]; [congruence|]. exfalso. apply Hnin.
+           apply elem_of_list_filter. split; [exact E|apply rows_list_in; exact Hr].
+      * rewrite lookup_insert_ne in H2 by auto. rewrite Hc0 in H2. simpl in H2. injection H2 as <-.
+        rewrite col_writes_notin by (intros Hx; apply elem_of_list_singleton in Hx; simpl in Hx; congruence).
+        split; [reflexivity|]. split; [exact (proj2 (wf_table_col _ _ _ _ Hwt Hc0))|reflexivity].
+Qed.
+
+Lemma undo_rename_column ord d t c c' tb sc col :
+  wf d -> d_tables d !! t = Some tb -> d_schema d !! t = Some sc ->
+  t_cols tb !! c = Some col -> t_cols tb !! c' = None ->
+  let d' := mk_doc (<[t := <[c' := c_info col]> (delete c sc)]> (d_schema d))
+                   (<[t := Table (t_rows tb) (<[c' := col]> (delete c (t_cols tb)))]> (d_tables d)) in
+  wf d' /\ apply_doc ord d' (RenameColumn t c' c) = Some d.
+Proof.
+  intros Hw Ht Hs Hc Hc' d'. assert (Hwt : wf_table sc tb) by (eapply wf_lookup; eauto).
+  destruct (wf_table_col _ _ _ _ Hwt Hc) as [Hsc Hwc].
+  assert (Hw' : wf d').
+  { apply wf_tset; [exact Hw|].
+    pose proof (wf_table_insert (delete c sc) (Table (t_rows tb) (delete c (t_cols tb))) c' (c_info col) col
+                  (wf_table_delete _ _ c Hwt) eq_refl Hwc) as H. simpl in H. exact H. }
+  split; [exact Hw'|]. rewrite apply_doc_unfold. simpl normalize.
+  assert (Hne : c ≠ c') by congruence.
+  rewrite (exec_rename_column_ok ord d' t c' c (Table (t_rows tb) (<[c' := col]> (delete c (t_cols tb))))
+             (<[c' := c_info col]> (delete c sc)) col [] [] Hw');
+    [|unfold d'; simpl; apply lookup_insert|unfold d'; simpl; apply lookup_insert|simpl; apply lookup_insert
+     |simpl; rewrite lookup_insert_ne by auto; apply lookup_delete].
+  simpl. f_equal. unfold d', mk_doc. simpl. rewrite !insert_insert.
+  rewrite (delete_insert (delete c sc) c' _) by (rewrite lookup_delete_ne by auto; exact (wf_table_col_none _ _ _ Hwt Hc')).
+  rewrite (delete_insert (delete c (t_cols tb)) c' _) by (rewrite lookup_delete_ne by auto; exact Hc').
+  rewrite (insert_delete _ _ _ Hsc), (insert_delete _ _ _ Hc), (insert_id _ _ _ Hs), table_eta, (insert_id _ _ _ Ht).
+  apply doc_eta.
+Qed.
+
+Lemma modified_col_get tb col ci' r : r ∈ t_rows tb -> cget (modified_col tb col ci') r = cget col r.
+Proof.
+  intros Hr. unfold modified_col. apply (cget_cset_list_in _ (cget col)).
+  - rewrite <- list_fmap_compose. simpl. rewrite list_fmap_id. apply rows_list_in. exact Hr.
+  - intros r' v H. apply elem_of_list_fmap in H as (r0 & [= -> ->] & _). reflexivity.
+Qed.
+
+Lemma modified_col_other tb col ci' r : r ∉ t_rows tb -> cget (modified_col tb col ci') r = ci_default ci'.
+Proof.
+  intros Hr. unfold modified_col. rewrite cget_cset_list_notin; [reflexivity|].
+  rewrite <- list_fmap_compose. simpl. rewrite list_fmap_id. intros H. apply Hr. apply rows_list_in. exact H.
+Qed.
+
+Lemma modified_col_wf tb col ci' : wf_col (t_rows tb) (modified_col tb col ci').
+Proof.
+  unfold modified_col. apply wf_col_cset_list; [apply wf_col_new|]. intros r H.
+  rewrite <- list_fmap_compose in H. simpl in H. rewrite list_fmap_id in H. apply rows_list_in. exact H.
+Qed.
+
+Lemma modified_col_info tb col ci' : c_info (modified_col tb col ci') = ci'.
+Proof. unfold modified_col. rewrite cset_list_info. reflexivity. Qed.
+
+Lemma undo_modify_column ord d t c m tb sc col :
+  wf d -> d_tables d !! t = Some tb -> d_schema d !! t = Some sc -> t_cols tb !! c = Some col ->
+  let ci' := upd_info (c_info col) m in
+  ci' ≠ c_info col ->
+  let d' := mk_doc (<[t := <[c := ci']> sc]> (d_schema d))
+                   (<[t := Table (t_rows tb) (<[c := modified_col tb col ci']> (t_cols tb))]> (d_tables d)) in
+  wf d' /\ apply_doc ord d' (ModifyColumn t c (undo_mod (c_info col) m)) = Some d.
+Proof.
+  intros Hw Ht Hs Hc ci' Hne d'. assert (Hwt : wf_table sc tb) by (eapply wf_lookup; eauto).
+  destruct (wf_table_col _ _ _ _ Hwt Hc) as [Hsc Hwc].
+  assert (Hw' : wf d').
+  { apply wf_tset; [exact Hw|]. apply wf_table_insert; [exact Hwt|apply modified_col_info|apply modified_col_wf]. }
+  split; [exact Hw'|]. rewrite apply_doc_unfold. simpl normalize.
+  set (tb' := Table (t_rows tb) (<[c := modified_col tb col ci']> (t_cols tb))).
+  rewrite (exec_modify_column_ok ord d' t c _ tb' (<[c := ci']> sc) (modified_col tb col ci') [] [] Hw');
+    [|unfold d'; simpl; apply lookup_insert|unfold d'; simpl; apply lookup_insert|simpl; apply lookup_insert].
+  rewrite modified_col_info. unfold ci' in *. rewrite !upd_info_undo. rewrite decide_False by (intros E; apply Hne; symmetry; exact E).
+  simpl. f_equal. unfold d', mk_doc. simpl. rewrite !insert_insert.
+  rewrite (insert_id _ _ _ Hsc), (insert_id _ _ _ Hs).
+  assert (Hcol : modified_col tb' (modified_col tb col (upd_info (c_info col) m)) (c_info col) = col).
+  { apply (col_ext (t_rows tb) (t_rows tb)); [apply (modified_col_wf tb')|exact Hwc|apply modified_col_info|].
+    intros r. destruct (decide (r ∈ t_rows tb)) as [Hr|Hr].
+    - rewrite (modified_col_get tb') by exact Hr. apply modified_col_get. exact Hr.
+    - rewrite (modified_col_other tb') by exact Hr. symmetry. apply (cget_default_notin _ _ _ Hwc Hr). }
+  rewrite Hcol, (insert_id _ _ _ Hc), table_eta, (insert_id _ _ _ Ht). apply doc_eta.
+Qed.
+
+Lemma wf_table_new (sc : gmap name colinfo) : wf_table sc (Table ∅ (new_col <$> sc)).
+Proof.
+  split; simpl; [rewrite dom_fmap_L; reflexivity|]. apply map_Forall_lookup. intros c col H.
+  rewrite lookup_fmap in H. destruct (sc !! c) as [ci|] eqn:E; [|discriminate]. simpl in H. injection H as <-.
+  split; [reflexivity|apply wf_col_new].
+Qed.
+
+Lemma undo_add_table ord d t cols :
+  wf d -> d_tables d !! t = None ->
+  let d' := mk_doc (<[t := list_to_map cols]> (d_schema d))
+                   (<[t := Table ∅ (new_col <$> list_to_map cols)]> (d_tables d)) in
+  wf d' /\ apply_doc ord d' (RemoveTable t) = Some d.
+Proof.
+  intros Hw Ht d'. assert (Hw' : wf d') by (apply wf_tset; [exact Hw|apply wf_table_new]).
+  split; [exact Hw'|]. rewrite apply_doc_unfold. simpl normalize.
+  rewrite (exec_remove_table_ok ord d' t (Table ∅ (new_col <$> list_to_map cols)) (list_to_map cols) [] [] Hw');
+    [|unfold d'; simpl; apply lookup_insert|unfold d'; simpl; apply lookup_insert].
+  simpl. f_equal. unfold d', mk_doc. simpl. rewrite (delete_insert _ _ _ (wf_none _ _ Hw Ht)), (delete_insert _ _ _ Ht).
+  apply doc_eta.
+Qed.
+
+Lemma rows_list_set tb : (list_to_set (rows_list tb) : gset rowid) = t_rows tb.
+Proof. apply set_eq. intros r. rewrite elem_of_list_to_set. apply rows_list_in. Qed.
+
+Lemma undo_remove_table ord d t tb sc :
+  wf d -> d_tables d !! t = Some tb -> d_schema d !! t = Some sc ->
+  let d' := mk_doc (delete t (d_schema d)) (delete t (d_tables d)) in
+  wf d' /\ replay ord d' (rev (remove_table_undo ord t tb sc)) = Some d.
+Proof.
+  intros Hw Ht Hs d'. assert (Hwt : wf_table sc tb) by (eapply wf_lookup; eauto).
+  assert (Hw' : wf d') by (apply wf_delete_table; exact Hw). split; [exact Hw'|].
+  set (d'' := mk_doc (<[t := sc]> (d_schema d')) (<[t := Table ∅ (new_col <$> sc)]> (d_tables d'))).
+  assert (Hadd : apply_doc ord d' (AddTable t (map_to_list sc)) = Some d'').
+  { rewrite apply_doc_unfold. simpl normalize. rewrite (exec_add_table_ok ord d' t _ [] [] Hw') by (unfold d'; simpl; apply lookup_delete).
+    simpl. rewrite list_to_map_to_list. reflexivity. }
+  assert (Hs'' : d_schema d'' = d_schema d) by (unfold d'', d'; simpl; apply insert_delete; exact Hs).
+  assert (Hempty : rows_list tb = [] -> d'' = d).
+  { intros Hr. unfold d'', d', mk_doc. simpl. rewrite (insert_delete _ _ _ Hs). rewrite <- (doc_eta d) at 3. f_equal.
+    rewrite <- (insert_delete _ _ _ Ht) at 2. f_equal.
+    assert (Hrows : t_rows tb = ∅) by (rewrite <- rows_list_set, Hr; reflexivity).
+    apply (table_restore sc tb _ ∅ Hwt); simpl; [congruence|rewrite dom_fmap_L; exact (proj1 Hwt)|].
+    intros c col col2 Hc H2. rewrite lookup_fmap in H2. destruct (wf_table_col _ _ _ _ Hwt Hc) as [Hsc Hwc].
+    rewrite Hsc in H2. simpl in H2. injection H2 as <-. split; [reflexivity|]. split; [apply wf_col_new|].
+    intros r. symmetry. apply (cget_default_notin _ _ _ Hwc). rewrite Hrows. apply not_elem_of_empty. }
+  unfold remove_table_undo. destruct (rows_list tb) as [|r0 rows0] eqn:Er.
+  - simpl. rewrite Hadd. f_equal. apply Hempty. reflexivity.
+  - rewrite <- Er. clear Hempty. simpl rev. simpl replay. rewrite Hadd.
+    set (tb'' := Table ∅ (new_col <$> sc)).
+    assert (Hw'' : wf d'') by (apply wf_tset; [exact Hw'|apply wf_table_new]).
+    rewrite apply_doc_unfold. simpl normalize.
+    rewrite (exec_add_ok ord d'' t tb''); [|unfold d''; simpl; apply lookup_insert|apply Forall_forall; intros r _; apply not_elem_of_empty|].
+    2: { apply Forall_forall. intros cv Hcv. apply col_values_in in Hcv as (colx & _ & Hx & _). unfold known, tb''. simpl.
+         rewrite lookup_fmap. destruct (wf_table_col _ _ _ _ Hwt Hx) as [-> _]. eexists. reflexivity. }
+    simpl. f_equal. unfold tset. rewrite Hs''. unfold d'', d', mk_doc. simpl. rewrite insert_insert.
+    rewrite <- (doc_eta d) at 3. f_equal. rewrite <- (insert_delete _ _ _ Ht) at 2. f_equal.
+    apply (table_restore sc tb _ (t_rows tb) Hwt).
+    + rewrite write_cols_rows. simpl. rewrite rows_list_set. set_solver.
+    + rewrite write_cols_dom. simpl. rewrite dom_fmap_L. exact (proj1 Hwt).
+    + intros c col col2 Hc H2. rewrite write_cols_lookup in H2. simpl in H2. rewrite lookup_fmap in H2.
+      destruct (wf_table_col _ _ _ _ Hwt Hc) as [Hsc Hwc]. rewrite Hsc in H2. simpl in H2. injection H2 as <-.
+      split; [rewrite col_writes_info; reflexivity|].
+      split; [apply col_writes_wf; [apply wf_col_new|intros r Hr; apply rows_list_in; exact Hr]|].
+      intros r. destruct (decide (r ∈ rows_list tb)) as [Hin|Hnin].
+      * apply (col_writes_restores c (rows_list tb) (cget col)); [| |exact Hin].
+        -- eapply col_values_fst; [eapply cols_in_order_complete; exact Hc|exact Hc].
+        -- intros cv Hcv Hcv1. apply col_values_in in Hcv as (colx & _ & Hx & ->). rewrite Hcv1, Hc in Hx. injection Hx as <-. reflexivity.
+      * rewrite col_writes_other by exact Hnin. symmetry. apply (cget_default_notin _ _ _ Hwc). intros Hx. apply Hnin. apply rows_list_in. exact Hx.
+Qed.
+
+Lemma undo_rename_table ord d t t' tb sc :
+  wf d -> d_tables d !! t = Some tb -> d_schema d !! t = Some sc -> d_tables d !! t' = None ->
+  let d' := mk_doc (<[t' := sc]> (delete t (d_schema d))) (<[t' := tb]> (delete t (d_tables d))) in
+  wf d' /\ apply_doc ord d' (RenameTable t' t) = Some d.
+Proof.
+  intros Hw Ht Hs Ht' d'. assert (Hwt : wf_table sc tb) by (eapply wf_lookup; eauto).
+  assert (Hne : t ≠ t') by congruence.
+  assert (Hw' : wf d').
+  { pose proof (wf_tset (mk_doc (delete t (d_schema d)) (delete t (d_tables d))) t' sc tb (wf_delete_table d t Hw) Hwt) as H.
+    simpl in H. exact H. }
+  split; [exact Hw'|]. rewrite apply_doc_unfold. simpl normalize.
+  rewrite (exec_rename_table_ok ord d' t' t tb sc [] [] Hw');
+    [|unfold d'; simpl; apply lookup_insert|unfold d'; simpl; apply lookup_insert
+     |unfold d'; simpl; rewrite lookup_insert_ne by auto; apply lookup_delete].
+  simpl. f_equal. unfold d', mk_doc. simpl.
+  rewrite (delete_insert (delete t (d_schema d)) t' _) by (rewrite lookup_delete_ne by auto; apply (wf_none _ _ Hw Ht')).
+  rewrite (delete_insert (delete t (d_tables d)) t' _) by (rewrite lookup_delete_ne by auto; exact Ht').
+  rewrite (insert_delete _ _ _ Hs), (insert_delete _ _ _ Ht). apply doc_eta.
+Qed.
